@@ -25,6 +25,7 @@ path = "{verif}/replay/src/main.rs"
 alpha_g_detector = {{ path = "{os.path.abspath(repo)}/detector" }}
 alpha_g_physics = {{ path = "{os.path.abspath(repo)}/physics", optional = true }}
 serde_json = "1"
+crc32c = "0.6.4"
 [features]
 physics = ["alpha_g_physics"]
 [profile.release]
